@@ -65,10 +65,13 @@ impl impl_details::CacheImplDetails for MemoryStore {
         if record.header.timestamp + (record.header.time_to_live as u64) > current_time {
             return false;
         }
-        match self.remove(key) {
-            Some(_) => true,
-            None => true,
-        }
+        // remove the record only if the one stored now is still expired: a concurrent
+        // set may have replaced it since the caller read `record`
+        self.memory.remove_if(key, |_key, current| {
+            current.header.time_to_live != 0
+                && current.header.timestamp + (current.header.time_to_live as u64) <= current_time
+        });
+        true
     }
 }
 
